@@ -221,6 +221,29 @@ def reevaluable(dump):
             skipped["float-value"] += 1
             continue
         recs.append({"name": u["name"], "s": u["s"], "def": d["def"], "val": u["val"]})
+    # the definitions as WRITTEN in the shipped source texts (rv-load dump: source_defs) are the reference:
+    #  * a unit is re-evaluated from its source definition when the registry recorded a different expression
+    #    (the difference itself is reported by the caller), and
+    #  * prefix definitions, which never reach Registry::definitions, are re-evaluated against Registry::prefixes.
+    src = {}
+    for x in dump.get("source_defs", []):
+        src.setdefault((x["kind"], x["s"]), []).append(x)
+    for r in recs:
+        w = src.get(("unit", r["s"]))
+        if w and len(w) == 1 and w[0]["def"] != r["def"]:
+            r["recorded_def"] = r["def"]
+            r["def"] = w[0]["def"]
+    pre = {p["s"]: p for p in dump["prefixes"]}
+    for (kind, name), w in sorted(src.items()):
+        if kind != "prefix" or len(w) != 1 or name not in pre:
+            continue
+        kinds = set()
+        ast_kinds(w[0]["def"], kinds)
+        if kinds & {"constf", "date", "err"} or "float" in pre[name]["v"]:
+            skipped["float-constant"] += 1
+            continue
+        recs.append({"name": w[0]["name"], "s": "prefix " + name + "-", "def": w[0]["def"],
+                     "val": {"t": "num", "v": pre[name]["v"], "d": []}, "is_prefix": True})
     return recs, skipped
 
 
@@ -299,6 +322,10 @@ def run(tier, seed):
                 continue
             if rec["def"]["k"] != "const":
                 run.nontrivial("%s:%s" % (ctx, rec["s"]))
+            if "recorded_def" in rec:
+                # the registry shows this expression as the unit's definition, but the source text defines it otherwise
+                run.violation({"engine": "recorded-definition", "ctx": ctx, "unit": rec["s"], "recorded": rec["recorded_def"]},
+                              {"definition_in_source_text": rec["def"]}, {"recorded_definition": rec["recorded_def"]}, "recorded-definition")
             if i in rejects:
                 run.violation({"engine": "fixed-point", "ctx": ctx, "unit": rec["s"], "def": rec["def"]},
                               {"value_of_definition_in_finished_database": vlib._unquote_tla(rejects[i])[:1500]},
